@@ -17,6 +17,7 @@ RULE = (
     "enumerated completely (callable raises - an exception type drawn from a list that includes StopIteration and a BaseException subclass - at call index f for every f in 0..cells; generator raises after yield j for every j in 0..yields) "
     "when the pattern has <= 256 cells (otherwise ends, middle and a stride). distinct = (history, failure position); histories may also fail half-way at generated points before continuing on the same object, and every enumerated failure of the last edit is followed by a further successful edit; non-trivial = failure at "
     "an interior position after >= 1 successful write, or a second edit on top of a first"
+    ' Also (added while the seeded-change rounds of DESIGN section 9 ran): Notes may be copied from another pattern (clone / deepcopy); generator-style and plain-function callables (the latter may fail before supplying anything); scribbles also walk the scratch array.'
 )
 ASSUMPTIONS = [
     "the supplied callable returns a fresh Note for every cell (as the docstring expects); notes owned by other patterns are not supplied",
@@ -40,7 +41,16 @@ def plan(tier):
 
 
 u16 = vs.edge_int(0, 0xFFFF)
-cell = st.tuples(st.sampled_from(NOTECMDS), vs.edge_int(0, 129), st.integers(0, 6), u16, u16).map(list)
+_full_cell = st.tuples(st.sampled_from(NOTECMDS), vs.edge_int(0, 129), st.integers(0, 6), u16, u16).map(list)
+# tracker-style cells with exactly one column set (only a module number, only a velocity, ...) are as common as full ones
+_one_column = st.one_of(
+    st.integers(1, 6).map(lambda m_: [0, 0, m_, 0, 0]),
+    st.integers(1, 129).map(lambda v_: [0, v_, 0, 0, 0]),
+    st.sampled_from(NOTECMDS).map(lambda n_: [n_, 0, 0, 0, 0]),
+    u16.map(lambda c_: [0, 0, 0, c_, 0]),
+    u16.map(lambda x_: [0, 0, 0, 0, x_]),
+)
+cell = st.one_of(_full_cell, _full_cell, _one_column)
 
 
 @st.composite
